@@ -62,6 +62,9 @@ pub struct IsoSys<S: Scanner> {
     pub timeout: u64,
     /// milliseconds per `Tick` (1 unless a long timeout is explored on a coarse clock)
     pub tick_ms: u64,
+    /// sub-millisecond mode: (timeout in ns, tick length in ns). `now` then counts these ticks, Tick
+    /// advances by one, the long pauses are not offered
+    pub fine: Option<(u64, u64)>,
     pub cap: u64,
     pub ctrls: Vec<u8>,
     pub sys_msgs: Vec<(u8, u8, u8)>,
@@ -105,6 +108,7 @@ impl<S: Scanner> IsoSys<S> {
             check_reset: false,
             timeout,
             tick_ms: 1,
+            fine: None,
             cap: crate::iso::cap_for(timeout),
             ctrls,
             sys_msgs,
@@ -114,6 +118,27 @@ impl<S: Scanner> IsoSys<S> {
     }
     fn vio(&self, rule: &str, cls: &str, detail: impl FnOnce() -> String) -> Violation {
         Violation::lazy(rule, format!("C15/{}/{}/{}", S::NAME, rule, cls), detail)
+    }
+    fn clk(&self, now: u64) {
+        match self.fine {
+            Some((_, tick_ns)) => set_clock_ticks(now, tick_ns),
+            None => set_clock(now),
+        }
+    }
+    fn mk(&self) -> S {
+        match self.fine {
+            Some((timeout_ns, _)) => S::make_ns(timeout_ns),
+            None => S::make(self.timeout),
+        }
+    }
+    /// sub-millisecond timeout on a fine clock (cap in ticks)
+    pub fn with_fine(mut self, timeout_ns: u64, tick_ns: u64) -> Self {
+        self.fine = Some((timeout_ns, tick_ns));
+        self.tick_ms = 1;
+        let t_ticks = (timeout_ns + tick_ns - 1) / tick_ns;
+        self.timeout = t_ticks;
+        self.cap = crate::iso::cap_for(t_ticks);
+        self
     }
 }
 
@@ -134,11 +159,11 @@ impl<S: Scanner> System for IsoSys<S> {
         self.pid.to_string()
     }
     fn name(&self) -> String {
-        format!("{} isolation product [a={}, b={}, third={}{}, timeout={}ms, tick={}ms, {} controllers, {} system messages]", S::NAME, self.chans[0], self.chans[1], self.chans[2], if self.triple { " (all three compared with solo scanners)" } else { " (multi-channel scanner only)" }, if self.timeout >= (1 << 40) { "inf".to_string() } else { self.timeout.to_string() }, self.tick_ms, self.ctrls.len(), self.sys_msgs.len())
+        format!("{} isolation product [a={}, b={}, third={}{}, timeout={}ms, tick={}ms{}, {} controllers, {} system messages]", S::NAME, self.chans[0], self.chans[1], self.chans[2], if self.triple { " (all three compared with solo scanners)" } else { " (multi-channel scanner only)" }, if self.timeout >= (1 << 40) { "inf".to_string() } else { self.timeout.to_string() }, self.tick_ms, match self.fine { Some((t, k)) => format!(" (fine clock: timeout {} ns, tick {} ns)", t, k), None => String::new() }, self.ctrls.len(), self.sys_msgs.len())
     }
     fn init(&self) -> IsoState<S> {
-        set_clock(0);
-        IsoState { m: S::make(self.timeout), a: S::make(self.timeout), b: S::make(self.timeout), c: S::make(self.timeout), now: 0 }
+        self.clk(0);
+        IsoState { m: self.mk(), a: self.mk(), b: self.mk(), c: self.mk(), now: 0 }
     }
     fn actions_at(&self, s: &IsoState<S>, depth: u32, out: &mut Vec<IAct>) {
         self.actions(s, out);
@@ -150,7 +175,7 @@ impl<S: Scanner> System for IsoSys<S> {
                 out.push(IAct::Special(slot, k));
             }
         }
-        if S::POLLS && depth <= crate::polling_pause_depth() {
+        if S::POLLS && depth <= crate::polling_pause_depth() && self.fine.is_none() {
             for p in [(1u64 << 32) - 2, 1 << 32] {
                 out.push(IAct::Pause(p));
             }
@@ -178,7 +203,7 @@ impl<S: Scanner> System for IsoSys<S> {
     fn step(&self, s: &IsoState<S>, act: &IAct) -> Step<IsoState<S>> {
         let mut v = Vec::new();
         let mut n = s.clone();
-        set_clock(s.now);
+        self.clk(s.now);
         let mut obs = 0u64;
         match act {
             IAct::Cc(slot, ctrl, val) => {
@@ -196,7 +221,7 @@ impl<S: Scanner> System for IsoSys<S> {
                         1 => &mut n.b,
                         _ => &mut n.c,
                     };
-                    set_clock(s.now);
+                    self.clk(s.now);
                     let os = solo.feed_msg(&msg);
                     if os != om {
                         v.push(self.vio("same-as-solo-scanner", "feed", || format!("interleaved stream on channels {:?}: feeding CC #{} ={} on channel {} returned {:?}; a scanner fed only channel {}'s inputs returned {:?}", &self.chans, ctrl, val, c, om, c, os)));
@@ -226,7 +251,7 @@ impl<S: Scanner> System for IsoSys<S> {
                         1 => &mut n.b,
                         _ => &mut n.c,
                     };
-                    set_clock(s.now);
+                    self.clk(s.now);
                     let os = solo.poll_ch(c);
                     if os != om {
                         v.push(self.vio("same-as-solo-scanner", "poll", || format!("interleaved stream on channels {:?}: poll({}) returned {:?}; a scanner fed only channel {}'s inputs returned {:?}", &self.chans, c, om, c, os)));
@@ -240,10 +265,10 @@ impl<S: Scanner> System for IsoSys<S> {
                 let c = self.chans[*slot as usize];
                 for &(ctrl, val) in SPECIALS[*k as usize].1.iter() {
                     let msg = cc(c, ctrl, val);
-                    set_clock(s.now);
+                    self.clk(s.now);
                     let om = n.m.feed_msg(&msg);
                     let solo = if *slot == 0 { &mut n.a } else { &mut n.b };
-                    set_clock(s.now);
+                    self.clk(s.now);
                     let os = solo.feed_msg(&msg);
                     if os != om {
                         v.push(self.vio("same-as-solo-scanner", "feed-standardised-rpn", || format!("interleaved stream on channels {:?}: within {} on channel {}, CC #{} ={} returned {:?}; a scanner fed only channel {}'s inputs returned {:?}", &self.chans, SPECIALS[*k as usize].0, c, ctrl, val, om, c, os)));
@@ -258,7 +283,7 @@ impl<S: Scanner> System for IsoSys<S> {
                 n.b.reset_all();
                 n.c.reset_all();
                 if self.check_reset {
-                    let fresh = S::make(self.timeout);
+                    let fresh = self.mk();
                     if n.m != fresh {
                         v.push(Violation::lazy("reset-equals-new", format!("C17/{}/reset-equals-new/multi-channel", S::NAME), || format!("after traffic on channels {:?} and reset() the scanner is not == a new one: {:?}", &self.chans, n.m)));
                     }
@@ -319,7 +344,10 @@ impl<S: Scanner> System for IsoSys<S> {
             IAct::Cc(slot, c, v) => format!("println!(\"{{:?}}\", scanner.feed(&helgoboss_midi::test_util::control_change({}, {}, {})));", self.chans[*slot as usize], c, v),
             IAct::Sys(s, a, b) => format!("println!(\"{{:?}}\", scanner.feed(&helgoboss_midi::test_util::short({}, {}, {})));", s, a, b),
             IAct::Poll(slot) => format!("println!(\"{{:?}}\", scanner.poll(helgoboss_midi::test_util::channel({})));", self.chans[*slot as usize]),
-            IAct::Tick => format!("clock += {}; helgoboss_midi::verif_hooks::set_now_millis(clock);", self.tick_ms),
+            IAct::Tick => match self.fine {
+                Some((_, tick_ns)) => format!("clock += 1; helgoboss_midi::verif_hooks::set_now_ticks(clock, {});", tick_ns),
+                None => format!("clock += {}; helgoboss_midi::verif_hooks::set_now_millis(clock);", self.tick_ms),
+            },
             IAct::Special(slot, k) => format!("for (n, v) in {:?} {{ println!(\"{{:?}}\", scanner.feed(&helgoboss_midi::test_util::control_change({}, n, v))); }} // {}", SPECIALS[*k as usize].1, self.chans[*slot as usize], SPECIALS[*k as usize].0),
             IAct::Pause(p) => format!("clock += {}; helgoboss_midi::verif_hooks::set_now_millis(clock);", p),
             IAct::Reset => "scanner.reset();".to_string(),
@@ -462,13 +490,20 @@ fn random_16ch<S: Scanner>(chk: &Check, seed: u64, steps: u64, timeout: u64) -> 
 
 pub fn run_c15(chk: &Check, tier: Tier) {
     chk.rule("for each unordered channel pair {a,b} (quick: the 8 pairs {c,c+8} plus 6 adjacent/extreme pairs; thorough: all 120) and each of the three scanners: reachability fixpoint of the triple (M fed everything, A fed only a, B fed only b) under contributing Control Changes with a distinct value per channel, system messages F0-FF whose data bytes look like (N)RPN/14-bit traffic (shown to M only), traffic and polls on a third channel (M only), polls of a and b, 1 ms ticks, reset; on every transition M's report for a channel equals the solo scanner's and carries that channel; system messages report nothing. The product is symmetric in a and b, so unordered pairs cover ordered ones. In addition, for a few channel TRIPLES (quick: (0,8,15) and (7,8,9); thorough: six) the product of M with three solo scanners, all three channels active at once");
-    chk.assume("per-channel byte domain of one value (leakage shows as a foreign value); polling scanner with timeout 2 ms (and 0 ms in the thorough tier), plus one pair (eight in thorough) with a timeout of 1 s on a 250 ms clock; complete messages for three standardised RPNs (MPE configuration, null, pitch bend sensitivity) are offered as single actions within one step of the initial state in the products of the pair (0, 8) (polling scanner, quick tier: the MPE configuration message on channel 0 only)");
+    chk.assume("per-channel byte domain of one value (leakage shows as a foreign value); polling scanner with timeout 2 ms (and 0 ms in the thorough tier), plus one pair (eight in thorough) with a timeout of 1 s on a 250 ms clock and one with 1.5 ms on a 0.5 ms clock; complete messages for three standardised RPNs (MPE configuration, null, pitch bend sensitivity) are offered as single actions within one step of the initial state in the products of the pair (0, 8) (polling scanner, quick tier: the MPE configuration message on channel 0 only)");
     run_for::<helgoboss_midi::ControlChange14BitMessageScanner>(chk, tier, &[0]);
     run_for::<helgoboss_midi::ParameterNumberMessageScanner>(chk, tier, &[0]);
     #[cfg(feature = "polling")]
     run_for::<helgoboss_midi::PollingParameterNumberMessageScanner>(chk, tier, if tier.thorough() { &[2, 0] } else { &[2] });
     #[cfg(feature = "polling")]
     {
+        // a 1.5 ms timeout on half-millisecond ticks: two channels whose arrivals are a fraction of a
+        // millisecond apart (a scanner-wide time base in whole milliseconds shows)
+        for &(a, b) in pairs(tier).iter().take(if tier.thorough() { 8 } else { 1 }) {
+            let sys = IsoSys::<helgoboss_midi::PollingParameterNumberMessageScanner>::new(a, b, 2, false).with_fine(1_500_000, 500_000);
+            let out = xs::explore(&sys, &Limits::default());
+            engine::record(chk, &sys, &out, None);
+        }
         // a timeout of one second (where whole-second shortcuts start to apply) on a 250 ms clock
         for &(a, b) in pairs(tier).iter().take(if tier.thorough() { 8 } else { 1 }) {
             let mut sys = IsoSys::<helgoboss_midi::PollingParameterNumberMessageScanner>::new(a, b, 1000, false);
